@@ -470,6 +470,21 @@ example : EdgeChainEq (sqA.flatMap triEdges) (sqB.flatMap triEdges) := by
     List.sum_cons, List.sum_nil, List.append_nil, List.cons_append, List.nil_append]
   linarith
 
+/-! non-vacuity on a tilted face: unit normal `(3/5, 0, 4/5)`, plane through the origin -/
+def tiltU : V3 ℝ := ⟨3/5, 0, 4/5⟩
+def tiltT : Tri ℝ := ⟨⟨0,0,0⟩, ⟨4,0,-3⟩, ⟨0,1,0⟩⟩
+
+example : V3.norm tiltU = 1 := by
+  unfold V3.norm V3.normSq tiltU; unfold_model; norm_num
+
+example : 0 ≤ (5:ℝ) ∧ tiltT.nvec = V3.smul 5 tiltU := by
+  refine ⟨by norm_num, ?_⟩
+  unfold tiltT tiltU; ext <;> unfold_model <;> norm_num
+
+example : V3.dot tiltU (tiltT.a - ⟨0,0,0⟩) = 0 ∧ V3.dot tiltU (tiltT.b - ⟨0,0,0⟩) = 0
+    ∧ V3.dot tiltU (tiltT.c - ⟨0,0,0⟩) = 0 := by
+  unfold tiltT tiltU; refine ⟨?_, ?_, ?_⟩ <;> unfold_model <;> norm_num
+
 /-! ### total surface area -/
 
 /-- **C01 surface area = Σ face areas** whenever the face groups partition the simplices
